@@ -238,6 +238,58 @@ with nesteds_ok (ns : nesteds) (msgs : list dmsg) (enums : list denum) {struct n
   | NCons n r => nested_ok n msgs enums /\ nesteds_ok r msgs enums
   end.
 
+(* ------------------------------------------------------------------ services and topics *)
+(* README "Services": service Foo becomes FooService in the .service sub-package; every method
+   is rpc <Method>(<Method>Request) returns (<Method>Response) - google.api.HttpBody when no
+   response is declared - with the declared HTTP verb and the path: base path joined with the
+   method path, every segment ":name" rewritten to "{snake_name}"; body "*" except for GET.
+   (Type names as the converter writes them; the link step qualifies them with the package.) *)
+Definition rewrite_segment (seg : str) : str :=
+  match seg with
+  | c :: nm => if c =? 58 then [123] ++ snake nm ++ [125] else seg
+  | [] => seg
+  end.
+Definition declared_path (base : option str) (m : method) : str :=
+  join slash (map rewrite_segment
+    (split 47 (match base with Some bp => path_join bp (m_path m) | None => m_path m end))).
+
+Definition method_ok (base : option str) (m : method) (dm : dmethod) : Prop :=
+  me_name dm = m_name m /\
+  me_in dm = m_name m ++ b "Request" /\
+  me_out dm = (match m_response m with Some _ => m_name m ++ b "Response" | None => b "google.api.HttpBody" end) /\
+  exists h, me_http dm = Some h /\ h_verb h = m_verb m /\ h_path h = declared_path base m /\
+            h_body h = (match m_verb m with VGet => [] | _ => [42] end).
+
+(* a root-level message with implicit leading fields [virt] followed by the declared ones *)
+Definition virtual_ok (name : str) (virt decl : props) (m : dmsg) : Prop :=
+  dm_name m = name /\ dm_kind m = MObject /\
+  fields_ok false 1 (props_list (papp virt decl)) (dm_fields m) /\
+  props_inline_ok (papp virt decl) (dm_msgs m) (dm_enums m) /\
+  map dm_name (dm_msgs m) = flat_map prop_msg_names (props_list (papp virt decl)) /\
+  map en_name (dm_enums m) = flat_map prop_enum_names (props_list (papp virt decl)).
+
+Definition method_msgs_ok (m : method) (ms : list dmsg) : Prop :=
+  match m_response m, ms with
+  | Some rs, [rq; rp] => virtual_ok (m_name m ++ b "Request") PNil (m_request m) rq /\
+                         virtual_ok (m_name m ++ b "Response") PNil rs rp
+  | None, [rq] => virtual_ok (m_name m ++ b "Request") PNil (m_request m) rq
+  | _, _ => False
+  end.
+
+(* README "Topics": messages <Name>Message, rpc <Name>(<Name>Message) returns (Empty), service
+   <Topic>Topic with the messaging role and topic_name = snake(topic); request/reply topics and
+   upsert topics get the implicit leading metadata field, numbered 1 *)
+Definition tmsg_name (tname : str) (t : tmsg) : str :=
+  match tm_name t with Some n => n | None => tname end.
+Definition topic_method_ok (tname : str) (t : tmsg) (dm : dmethod) : Prop :=
+  me_name dm = tmsg_name tname t /\ me_in dm = tmsg_name tname t ++ b "Message" /\
+  me_out dm = b ".google.protobuf.Empty" /\ me_http dm = None.
+Definition topic_service_ok (tname topic_name : str) (rl : role) (virt : props) (l : list tmsg)
+           (ms : list dmsg) (ds : dservice) : Prop :=
+  ds_name ds = camel tname ++ b "Topic" /\ ds_topic ds = Some (topic_name, rl) /\
+  Forall2 (topic_method_ok tname) l (ds_methods ds) /\
+  Forall2 (fun t m => virtual_ok (tmsg_name tname t ++ b "Message") virt (tm_fields t) m) l ms.
+
 (* ------------------------------------------------------------------ files *)
 Definition element_msg_name (e : element) : list str :=
   match e with EObject nm _ _ | EOneof nm _ _ => [nm] | _ => [] end.
